@@ -46,6 +46,13 @@ func c20Op(kind string, seed uint64) string {
 			out = sha([]byte(deepDump(s)))
 		case len(kind) > 6 && kind[:6] == "write-":
 			s := richSubtitles(r)
+			if ind := r.Intn(4); kind == "write-ttml" && ind > 0 {
+				// the writer's option: it concerns this call only
+				var b bytes.Buffer
+				err := s.WriteToTTML(&b, astisub.WriteToTTMLWithIndentOption([]string{"", "\t", "  "}[ind-1]))
+				out = fmt.Sprintf("%s/%v/", sha(b.Bytes()), err != nil)
+				return
+			}
 			for _, w := range allWriters {
 				if w.name == kind[6:] {
 					b, err, p := writeBytes(w, s)
@@ -56,7 +63,16 @@ func c20Op(kind string, seed uint64) string {
 			s := richSubtitles(r)
 			other := richSubtitles(r)
 			for k := 0; k < 4; k++ {
-				switch r.Intn(9) {
+				switch r.Intn(10) {
+				case 9:
+					// pad the list, then do to the padded list what its owner may do: strip the styling, edit the last cue
+					s.Order()
+					s.ForceDuration(s.Duration()+time.Duration(r.Range(1, 5000))*time.Millisecond, true)
+					s.RemoveStyling()
+					if n := len(s.Items); n > 0 && len(s.Items[n-1].Lines) > 0 && len(s.Items[n-1].Lines[0].Items) > 0 {
+						s.Items[n-1].Lines[0].Items[0].Text = fmt.Sprintf("edited %d", seed%1000)
+						s.Items[n-1].Lines[0].VoiceName = "owner"
+					}
 				case 0:
 					s.Add(time.Duration(r.Intn(4000)-2000) * time.Millisecond)
 				case 1:
@@ -187,6 +203,7 @@ func init() {
 		Workers:     4,
 		Setup: func(c *fw.Ctx) error {
 			c20Digest = stateDigest()
+			datasegMark()
 			return nil
 		},
 		Final: func(c *fw.Ctx) []fw.Outcome {
@@ -199,6 +216,7 @@ func init() {
 			} else {
 				outs = append(outs, fw.OK(fw.HashString(d), "state digest unchanged: "+d))
 			}
+			outs = append(outs, datasegVerdict("during the concurrent rounds"))
 			return outs
 		},
 		MinDistinct: func(tier string) int64 { return tierN(tier, 100, 2000) },
